@@ -16,6 +16,16 @@ STDLIB_AXIOMS = {
 class CoqError(Exception):
     pass
 
+def njobs(default=14):
+    """parallelism: env LOKI_VERIF_JOBS, else the untracked file /verif/.jobs (used to throttle while many
+    builders share the machine), else `default`"""
+    v = os.environ.get('LOKI_VERIF_JOBS')
+    if not v:
+        try: v = open(os.path.join(VERIF, '.jobs')).read().strip()
+        except OSError: v = ''
+    try: return max(1, min(default, int(v)))
+    except ValueError: return default
+
 def _lock():
     f = open(os.path.join(COQDIR, '.lock'), 'w')
     fcntl.flock(f, fcntl.LOCK_EX)
@@ -36,11 +46,12 @@ def gen_project():
         subprocess.run(['coq_makefile', '-f', '_CoqProject', '-o', 'Makefile'], cwd=COQDIR,
                        check=True, stdout=subprocess.DEVNULL, stderr=subprocess.DEVNULL)
 
-def make(targets=None, jobs=8, timeout=1500):
+def make(targets=None, jobs=None, timeout=1500):
     """Full .vo build of the given targets (or everything). Returns (ok, log)."""
     lk = _lock()
     try:
         gen_project()
+        jobs = jobs or njobs(8)
         cmd = ['timeout', str(timeout), 'make', '-j%d' % jobs] + (targets or [])
         r = subprocess.run(cmd, cwd=COQDIR, stdout=subprocess.PIPE, stderr=subprocess.STDOUT, text=True)
         return r.returncode == 0, r.stdout
@@ -130,10 +141,11 @@ Fixpoint lv_falses (i : nat) (l : list bool) : list nat :=
   match l with [] => [] | b :: r => if b then lv_falses (S i) r else i :: lv_falses (S i) r end.
 """
 
-def eval_bool_terms(imports, terms, shard=300, jobs=12, timeout=900, prelude=''):
+def eval_bool_terms(imports, terms, shard=300, jobs=None, timeout=900, prelude=''):
     """Evaluate Coq boolean terms with vm_compute.  Returns (set of indices that are false, error_or_None)."""
     if not terms:
         return set(), None
+    jobs = jobs or njobs(12)
     work = tempfile.mkdtemp(prefix='lv_cases_')
     header = CASE_HEADER % ('\n'.join('From LV Require Import %s.' % m for m in imports) + '\n' + prelude)
     shards = [(i, terms[i:i + shard]) for i in range(0, len(terms), shard)]
